@@ -293,6 +293,9 @@ def model_of(rec, dry):
             k, eff = W.fault_k(pt, n1, m1)
         else:
             li = sc['line_info']
+            if W.line_after_region(li):
+                # the signal landed after the guarded region was left: the save is complete
+                return f"SAVE mode={c['mode']} n={n1} m={m1} kind=crash k={9 + n1 + m1} lose=0", 9 + n1 + m1, True
             k, eff = (max(1, W.line_k(li, n1, m1)) if W.line_in_try(li) else 0), 0
         return f"SAVE mode={c['mode']} n={n1} m={m1} kind=fault k={k} eff={eff} del=ok", k, True
     if sc.get('completed'):
